@@ -67,6 +67,14 @@ func main() {
 			if len(os.Args) > 2 && os.Args[2] == "uwrap" {
 				r = ruleUwrap(c, inFiles("encoding.go"))
 			}
+			if len(os.Args) > 2 && os.Args[2] == "fixed" {
+				r = &RuleResult{Rule: "FIXEDARRAY"}
+				for _, pk := range []string{"graph", "graph/search", "dawg", "disjoint", "sortints", "ints", "comb", "itertools", "tsp"} {
+					q := ruleFixedArray(c, pk)
+					r.Instances = append(r.Instances, q.Instances...)
+					r.Findings = append(r.Findings, q.Findings...)
+				}
+			}
 			if len(os.Args) > 2 && os.Args[2] == "irr" {
 				r = ruleIrreflexive(c, "graph")
 			}
